@@ -1,6 +1,19 @@
 
+val negb : bool -> bool
+
 type nat =
 | O
 | S of nat
 
+type ('a, 'b) sum =
+| Coq_inl of 'a
+| Coq_inr of 'b
 
+val length : 'a1 list -> nat
+
+val app : 'a1 list -> 'a1 list -> 'a1 list
+
+type comparison =
+| Eq
+| Lt
+| Gt
